@@ -53,7 +53,8 @@ inductive Kind where
   | pendingCall (t : Option Ticket)                     -- `None` = reserved slot / internal unsubscribe
   | pendingSub (unsubId : Id) (t : Ticket) (unsubMethod : Text)
   | sub (unsubId : Id) (chan : ChanId) (unsubMethod : Text)
-  | pendingUnsub (subReq : Id)       -- under the unsubscribe id while that call is in flight; holds the subscribe id
+  | pendingUnsub (subReq : Id) (chan : ChanId)   -- under the unsubscribe id while that call is in flight; holds the
+                                                 -- subscribe id (`chan` is ghost: whose unsubscribe it is)
   deriving DecidableEq, Repr
 
 /-- manager.rs:84-96 -/
@@ -125,9 +126,9 @@ def releaseReservedSlot (m : Mgr) (id : Id) : Mgr :=
 
 /-- end of `unsubscribe`: remember under the reserved unsubscribe id which marker to drop on
 acknowledgement -/
-def markUnsubscribing (m : Mgr) (uid rid : Id) : Mgr :=
+def markUnsubscribing (m : Mgr) (uid rid : Id) (c : ChanId) : Mgr :=
   match alookup uid m.requests with
-  | some (.pendingCall none) => { m with requests := areplace uid (.pendingUnsub rid) m.requests }
+  | some (.pendingCall none) => { m with requests := areplace uid (.pendingUnsub rid c) m.requests }
   | _ => m
 
 /-- `complete_pending_call`: a plain pending call, or the acknowledgement of an unsubscribe call —
@@ -135,7 +136,7 @@ then the marker `unsubscribe` left under the subscribe id is dropped as well -/
 def completePendingCall (m : Mgr) (id : Id) : Option (Mgr × Option Ticket) :=
   match alookup id m.requests with
   | some (.pendingCall t) => some ({ m with requests := aerase id m.requests }, t)
-  | some (.pendingUnsub rid) => some (({ m with requests := aerase id m.requests }).releaseReservedSlot rid, none)
+  | some (.pendingUnsub rid _) => some (({ m with requests := aerase id m.requests }).releaseReservedSlot rid, none)
   | _ => none
 
 /-- `remove_subscription`: removes the subscription entry and the reverse index and releases the
@@ -151,7 +152,7 @@ the reserved slot becomes `PendingUnsubscribe(subscribe id)` -/
 def unsubscribe (m : Mgr) (rid : Id) (s : SubId) : Option (Mgr × Id × ChanId × Text) :=
   match alookup rid m.requests, alookup s m.subs with
   | some (.sub uid c um), some _ =>
-    some (({ m with requests := areplace rid (.pendingCall none) m.requests, subs := aerase s m.subs }).markUnsubscribing uid rid,
+    some (({ m with requests := areplace rid (.pendingCall none) m.requests, subs := aerase s m.subs }).markUnsubscribing uid rid c,
           uid, c, um)
   | _, _ => none
 
@@ -162,7 +163,7 @@ def requestStatus (m : Mgr) (id : Id) : Status :=
   | some (.pendingCall _) => .pendingCall
   | some (.pendingSub _ _ _) => .pendingSub
   | some (.sub _ _ _) => .sub
-  | some (.pendingUnsub _) => .pendingCall
+  | some (.pendingUnsub _ _) => .pendingCall
 
 /-- manager.rs:316-318 -/
 def asSubscription (m : Mgr) (rid : Id) : Option ChanId :=
@@ -208,6 +209,7 @@ structure Chan where
   closedByServer : Bool := false    -- ended by a close/error notification
   unsubscribed : Bool := false      -- ended by `RequestManager::unsubscribe`
   uid : Id := .null                 -- ghost (C18): request id reserved for this subscription's unsubscribe call
+  rid : Id := .null                 -- ghost (C18): request id of the subscribe call (key of its table entry)
   acked : Bool := false             -- ghost (C18): the unsubscribe call has been answered
   deriving Repr
 
@@ -291,17 +293,22 @@ def Core.alive (st : Core) (t : Ticket) : Bool := !(st.dead.contains t.op)
 def Core.completeIfAlive (st : Core) (t : Ticket) (o : Outcome) : List Effect :=
   if st.alive t then [.complete t o] else [.dropped t o]
 
-def Core.newChan (st : Core) (owner : Owner) (op : Nat) (uid : Id := .null) : Core × ChanId :=
-  ({ st with chans := st.chans ++ [{ cap := st.cap, owner := owner, op := op, uid := uid }] }, st.chans.length)
-
-/-- ghost (C18): the response to the unsubscribe call `id` has arrived -/
-def ackChan (id : Id) (ch : Chan) : Chan :=
-  if ch.uid = id ∧ ch.unsubscribed = true then { ch with acked := true } else ch
-
-def Core.ackChans (st : Core) (id : Id) : Core := { st with chans := st.chans.map (ackChan id) }
+def Core.newChan (st : Core) (owner : Owner) (op : Nat) (uid : Id := .null) (rid : Id := .null) : Core × ChanId :=
+  ({ st with chans := st.chans ++ [{ cap := st.cap, owner := owner, op := op, uid := uid, rid := rid }] }, st.chans.length)
 
 def Core.modChan (st : Core) (c : ChanId) (f : Chan → Chan) : Core :=
   { st with chans := modifyAt f st.chans c }
+
+/-- ghost (C18): the response `id` is the acknowledgement of the unsubscribe call of this channel -/
+def Mgr.ackTarget (m : Mgr) (id : Id) : Option ChanId :=
+  match alookup id m.requests with
+  | some (.pendingUnsub _ c) => some c
+  | _ => none
+
+def Core.ackAt (st : Core) (c : Option ChanId) : Core :=
+  match c with
+  | some c => st.modChan c (fun ch => { ch with acked := true })
+  | none => st
 
 def dropSender (ch : Chan) : Chan := { ch with senderAlive := false }
 def dropReceiver (ch : Chan) : Chan := { ch with receiverAlive := false, buf := [] }
@@ -387,9 +394,9 @@ def completeSubscribe (st : Core) (r : Response) (uid : Id) (t : Ticket) (um : T
       | none => ({ st with mgr := st.mgr.releaseReservedSlot uid }, st.completeIfAlive t .invalidSubId)
       | some m' =>
         if st.alive t then
-          ((({ st with mgr := m' }).newChan (.sub s) t.op uid).1, [.complete t (.subscribed st.chans.length s)])
+          ((({ st with mgr := m' }).newChan (.sub s) t.op uid r.id).1, [.complete t (.subscribed st.chans.length s)])
         else
-          abandonedSubscribe (({ st with mgr := m' }).newChan (.sub s) t.op uid).1 st.chans.length s t
+          abandonedSubscribe (({ st with mgr := m' }).newChan (.sub s) t.op uid r.id).1 st.chans.length s t
 
 /-- helpers.rs:174-234 -/
 def processSingleResponse (st : Core) (r : Response) : Except Fatal (Core × List Effect) :=
@@ -397,7 +404,7 @@ def processSingleResponse (st : Core) (r : Response) : Except Fatal (Core × Lis
   | .pendingCall =>
     match st.mgr.completePendingCall r.id with
     | some (m', some t) => .ok ({ st with mgr := m' }, st.completeIfAlive t (.response r))
-    | some (m', none) => .ok (({ st with mgr := m' }).ackChans r.id, [])
+    | some (m', none) => .ok (({ st with mgr := m' }).ackAt (st.mgr.ackTarget r.id), [])
     | none => .error (.notPending r.id)
   | .pendingSub =>
     match st.mgr.completePendingSubscription r.id with
